@@ -29,7 +29,7 @@ def build(tier: str) -> list[Obligation]:
             obs.append(Obligation(name=f"history_{cause}_{n}items", module_src=src, fn="h", timeout=t,
                                   meta={"end_cause": cause, "items": n}))
     for n1, n2 in (((0, 0), (2, 1), (1, 3), (3, 3)) if thorough else ((2, 1), (0, 2))):
-        src = e1.make_module(PRELUDE, "h", "em: bool, close1: bool", [], f"return multichannel_queue_ok({n1}, {n2}, em, close1)\n")
+        src = e1.make_module(PRELUDE, "h", "em: bool, close1: bool, late: bool", [], f"return multichannel_queue_ok({n1}, {n2}, em, close1, late)\n")
         obs.append(Obligation(name=f"multichannel_{n1}_{n2}", module_src=src, fn="h", timeout=t, meta={"multichannel": [n1, n2]}))
     return obs
 
